@@ -51,7 +51,7 @@ PROPERTIES = {
         "min_obligations": 3000,
     },
     "C18": {
-        "contracts": [interp.Interp1D, interp.InterpND],
+        "contracts": [interp.Interp1D, interp.InterpND, interp.InterpAtNodes],
         "level": "other",
         "min_obligations": 300,
         "explanation": "proved (relative to numpy.interp, uninterpreted): the one-dimensional path -- one call numpy.interp(new, xs, ys, left, right) on the operand's (label, value) pairs sorted ascending, result on exactly the new axis, metadata, operand untouched; bounded stand-in: the N-d path (positions, floor / ceil, fraction times difference: nonlinear real arithmetic), interp_like and Dataset.interp_axis, compared fibre by fibre with numpy.interp on the real code.",
